@@ -7,7 +7,14 @@ From Coq Require Import ClassicalDescription DecimalString Decimal DecimalN Deci
 From PySMT.core Require Import Syntax SyntaxLemmas Sem SmtStd.
 From PySMT.models Require Import TypeChecker Oracles SmtPrinter SmtScript.
 From PySMT.proofs Require Import TypeChecker_proofs.
+(* C01's fragment predicate [okt] and its type-soundness theorem [okt_sound] (used where the
+   printed text's meaning depends on the SORT of an argument: Iff, indexed bit-vector operators).
+   Required, not imported: several of its names (pairs_of, bv, ...) clash with the models'. *)
+From PySMT.proofs Require SimplifierSemBase_proofs.
+From Coq Require Import Permutation.
 Import ListNotations.
+Notation okt := SimplifierSemBase_proofs.okt.
+Notation key_const := SimplifierSemBase_proofs.key_const.
 Open Scope bool_scope.
 Open Scope string_scope.
 (* models/Oracles.v has an identical [all_some]; the specification's is meant throughout *)
@@ -105,6 +112,43 @@ Proof.
   destruct (split_dot_hash _ _ _ E) as [a' ->]. now rewrite numeral_hash.
 Qed.
 
+(* string literals *)
+Definition str_plain (s : list Z) : bool :=
+  forallb (fun c => (32 <=? c)%Z && (c <=? 126)%Z && negb (c =? 92)%Z) s.
+Lemma numeral_quote r : numeral_val (String """" r) = None.
+Proof. unfold numeral_val. cbn. destruct (NilEmpty.uint_of_string r); reflexivity. Qed.
+Lemma split_dot_quote r a b : split_dot (String """" r) = Some (a, b) -> exists a', a = String """" a'.
+Proof. cbn. destruct (split_dot r) as [[x y]|]; intros [= <- <-]; eauto. Qed.
+Lemma decimal_quote r : decimal_val (String """" r) = None.
+Proof.
+  unfold decimal_val. destruct (split_dot (String """" r)) as [[a b]|] eqn:E; [|reflexivity].
+  destruct (split_dot_quote _ _ _ E) as [a' ->]. now rewrite numeral_quote.
+Qed.
+Lemma ascii_code c : (0 <= c < 256)%Z -> Z.of_nat (code (ascii_of_N (Z.to_N c))) = c.
+Proof.
+  intros H. unfold code. replace (ascii_of_N (Z.to_N c)) with (ascii_of_nat (Z.to_nat c)).
+  - rewrite nat_ascii_embedding by lia. lia.
+  - unfold ascii_of_nat. f_equal. lia.
+Qed.
+Lemma strlit_plain s : str_plain s = true -> strlit_body (str_body s) = Some s.
+Proof.
+  induction s as [|c s IH]; intros H; [reflexivity|].
+  cbn [str_plain forallb] in H. apply andb_true_iff in H. destruct H as [Hc Hs].
+  apply andb_true_iff in Hc. destruct Hc as [Hc _]. apply andb_true_iff in Hc. destruct Hc as [H1 H2].
+  apply Z.leb_le in H1, H2. specialize (IH Hs). cbn [str_body].
+  destruct (c =? 34)%Z eqn:E.
+  - apply Z.eqb_eq in E. subst c. cbn [strlit_body]. cbn [Ascii.eqb Bool.eqb]. rewrite IH. reflexivity.
+  - apply Z.eqb_neq in E. unfold utf8. destruct (c <? 128)%Z eqn:E2; [|apply Z.ltb_ge in E2; lia].
+    cbn [fold_right strlit_body].
+    pose proof (ascii_code c ltac:(lia)) as HC. set (b := ascii_of_N (Z.to_N c)) in *.
+    destruct (Ascii.eqb_spec b """").
+    + exfalso. rewrite e in HC. cbn in HC. lia.
+    + unfold is_printable_c.
+      replace ((32 <=? code b)%nat && (code b <=? 126)%nat) with true
+        by (symmetry; apply andb_true_iff; split; apply Nat.leb_le; lia).
+      cbn [orb]. rewrite IH, HC. reflexivity.
+Qed.
+
 (* ========================================================================= helpers *)
 Lemma all_some_map {A B} (f : A -> option B) l vs :
   Forall2 (fun x v => f x = Some v) l vs -> all_some (map f l) = Some vs.
@@ -153,6 +197,110 @@ Qed.
 Definition head_plain (h : string) : bool :=
   negb (String.eqb h "let") && negb (String.eqb h "forall" || String.eqb h "exists") &&
   negb (String.eqb h "!") && negb (String.eqb h "_").
+
+(* ------------------------------------------------ array values: store chains vs arr_assign *)
+Fixpoint chain_fun (f : key -> value) (ps : list (value * value)) : key -> value :=
+  match ps with
+  | [] => f
+  | (i, v) :: r => chain_fun (fun k => if key_eq_dec k (to_key i) then v else f k) r
+  end.
+Fixpoint flat_pairs (ps : list (value * value)) : list value :=
+  match ps with [] => [] | (i, v) :: r => i :: v :: flat_pairs r end.
+Definition pkeys (ps : list (value * value)) : list key := map (fun p => to_key (fst p)) ps.
+Fixpoint alookup (k : key) (ps : list (value * value)) : option value :=
+  match ps with
+  | [] => None
+  | (i, v) :: r => if key_eq_dec k (to_key i) then Some v else alookup k r
+  end.
+
+Lemma arr_assign_lookup f ps k :
+  arr_assign f (flat_pairs ps) k = match alookup k ps with Some v => v | None => f k end.
+Proof.
+  induction ps as [|[i v] r IH]; cbn [flat_pairs arr_assign alookup]; [reflexivity|].
+  destruct (key_eq_dec k (to_key i)); [reflexivity | exact IH].
+Qed.
+Lemma alookup_in k ps v : alookup k ps = Some v -> In k (pkeys ps).
+Proof.
+  induction ps as [|[i w] r IH]; cbn; [discriminate|].
+  destruct (key_eq_dec k (to_key i)); [intros _; left; auto | intros H; right; auto].
+Qed.
+Lemma chain_fun_lookup : forall ps f k, NoDup (pkeys ps) ->
+  chain_fun f ps k = match alookup k ps with Some v => v | None => f k end.
+Proof.
+  induction ps as [|[i v] r IH]; intros f k HN; cbn [chain_fun alookup]; [reflexivity|].
+  inversion HN as [|? ? Hni HN']; subst. rewrite (IH _ k HN').
+  destruct (key_eq_dec k (to_key i)) as [E|E].
+  - destruct (alookup k r) as [v'|] eqn:A; [|reflexivity].
+    exfalso. apply Hni. cbn [fst]. rewrite <- E. eapply alookup_in; eauto.
+  - reflexivity.
+Qed.
+Lemma alookup_perm k ps ps' : Permutation ps ps' -> NoDup (pkeys ps) -> alookup k ps = alookup k ps'.
+Proof.
+  induction 1 as [|[i v] l l' HP IH|[i v] [j w] l|l l' l'' HP1 IH1 HP2 IH2]; intros HN.
+  - reflexivity.
+  - cbn [alookup]. inversion HN; subst. now rewrite IH.
+  - cbn [alookup]. inversion HN as [|? ? Hn1 HN1]; subst. cbn [fst] in *.
+    destruct (key_eq_dec k (to_key j)) as [E1|E1], (key_eq_dec k (to_key i)) as [E2|E2]; try reflexivity.
+    exfalso. apply Hn1. left. congruence.
+  - rewrite IH1 by assumption. apply IH2.
+    eapply Permutation_NoDup; [|exact HN]. unfold pkeys. now apply Permutation_map.
+Qed.
+Lemma chain_fun_assign f ps ps' : Permutation ps ps' -> NoDup (pkeys ps) ->
+  chain_fun f ps' = arr_assign f (flat_pairs ps).
+Proof.
+  intros HP HN. apply FunctionalExtensionality.functional_extensionality. intros k.
+  rewrite chain_fun_lookup, arr_assign_lookup.
+  - now rewrite (alookup_perm k ps ps' HP HN).
+  - eapply Permutation_NoDup; [|exact HN]. unfold pkeys. now apply Permutation_map.
+Qed.
+
+Lemma pairs_of_map {A B} (g : A -> B) : forall l, pairs_of (map g l) = map (fun kv => (g (fst kv), g (snd kv))) (pairs_of l).
+Proof.
+  fix IH 1. intros [|a [|b r]]; cbn; try reflexivity. now rewrite IH.
+Qed.
+Lemma arr_assign_pairs f : forall l, arr_assign f l = arr_assign f (flat_pairs (pairs_of l)).
+Proof.
+  fix IH 1. intros [|a [|b r]]; cbn [pairs_of flat_pairs arr_assign]; try reflexivity. now rewrite <- IH.
+Qed.
+
+(* sorted(..., key=str) is a permutation *)
+Lemma insert_by_perm {A} k (x : A) l : Permutation (insert_by k x l) ((k, x) :: l).
+Proof.
+  induction l as [|[k' y] r IH]; cbn [insert_by]; [reflexivity|].
+  destruct (codes_ltb k k'); [reflexivity|]. rewrite IH. apply perm_swap.
+Qed.
+Lemma sort_by_key_perm {A} (l : list (list Z * A)) : Permutation (sort_by_key l) l.
+Proof.
+  unfold sort_by_key.
+  assert (G : forall (l : list (list Z * A)) acc, Permutation (fold_left (fun acc kx => insert_by (fst kx) (snd kx) acc) l acc) (l ++ acc)).
+  { induction l0 as [|[k x] r IH]; intros acc; cbn [fold_left app]; [reflexivity|].
+    rewrite IH. cbn [fst snd]. rewrite insert_by_perm. symmetry. apply Permutation_middle. }
+  rewrite G. now rewrite List.app_nil_r.
+Qed.
+Lemma map_snd_combine {A B} : forall (a : list A) (b : list B), List.length a = List.length b -> map snd (combine a b) = b.
+Proof. induction a as [|x a IH]; intros [|y b] H; cbn in *; try discriminate; auto. f_equal. apply IH. lia. Qed.
+
+(* distinct index constants denote distinct indices *)
+Fixpoint nodup_terms (l : list term) : bool :=
+  match l with [] => true | x :: r => negb (existsb (term_eqb x) r) && nodup_terms r end.
+Definition av_keys_ok (assigns : list term) : bool :=
+  forallb key_const (map fst (pairs_of assigns)) && nodup_terms (map fst (pairs_of assigns)).
+Lemma key_const_inj J a b : key_const a = true -> key_const b = true ->
+  to_key (eval J a) = to_key (eval J b) -> a = b.
+Proof.
+  destruct a as [oa [|? ?]]; destruct oa; try discriminate; destruct b as [ob [|? ?]]; destruct ob; try discriminate;
+    cbn; intros _ _ E; try discriminate E; congruence.
+Qed.
+Lemma nodup_keys J : forall l, forallb key_const l = true -> nodup_terms l = true ->
+  NoDup (map (fun a => to_key (eval J a)) l).
+Proof.
+  induction l as [|a r IH]; intros HK HN; cbn [map]; [constructor|].
+  cbn [forallb nodup_terms] in *. apply andb_true_iff in HK, HN. destruct HK as [Ka Kr], HN as [Na Nr].
+  constructor; [|auto]. intros HI. apply in_map_iff in HI. destruct HI as (b & E & Hb).
+  assert (b = a) by (apply (key_const_inj J); auto; rewrite forallb_forall in Kr; auto). subst b.
+  apply negb_true_iff in Na. assert (existsb (term_eqb a) r = true); [|congruence].
+  apply existsb_exists. exists a. split; [assumption | now apply term_eqb_eq].
+Qed.
 
 Section Sound.
   Variable Sg : sig.
@@ -256,15 +404,31 @@ Section Sound.
     - tauto.
   Qed.
 
-  Lemma theory_case name k (v : value) ss vals rho J bound :
-    env_rel bound rho J -> bound_good bound ->
+  Lemma theory_case name k (v : value) ss vals rho :
+    (forall n k', assoc n std_table = Some k' -> assoc n rho = None) ->
     head_plain name = true -> sym_name name = Some name -> assoc name std_table = Some k ->
     all_some (map (seval Sg I rho) ss) = Some vals ->
     apply_kind I k vals = Some v ->
     seval Sg I rho (SList (Atom name :: ss)) = Some v.
   Proof.
-    intros HR HB Hp Hs Hk Hv Ha. rewrite (seval_app _ _ _ Hp), Hs, Hv. unfold apply_sym.
-    now rewrite (theory_head_unbound _ _ _ _ _ HR HB Hk), Hk.
+    intros HU Hp Hs Hk Hv Ha. rewrite (seval_app _ _ _ Hp), Hs, Hv. unfold apply_sym.
+    now rewrite (HU _ _ Hk), Hk.
+  Qed.
+
+  (* what the meaning of ONE node's text needs of the environment rho of the text and of the
+     interpretation J the node is evaluated in: theory symbols are not shadowed, the division-by-0
+     and function tables of J are I's *)
+  Record scope (rho : env) (J : interp) : Prop := {
+    sc_table : forall n k, assoc n std_table = Some k -> assoc n rho = None;
+    sc_consts : forall n c, assoc n std_consts = Some c -> assoc n rho = None;
+    sc_div : rdiv0 J = rdiv0 I /\ idiv0 J = idiv0 I;
+    sc_fun : ifun J = ifun I
+  }.
+  Lemma env_rel_scope bound rho J : env_rel bound rho J -> bound_good bound -> scope rho J.
+  Proof.
+    intros HR HB. pose proof HR as (_ & F & R & D). split; auto.
+    - intros n k. apply (theory_head_unbound _ _ _ _ _ HR HB).
+    - intros n c. apply (const_head_unbound _ _ _ _ _ HR HB).
   Qed.
 
   (* ------------------------------------------------ one node, in a fixed scope *)
@@ -281,15 +445,15 @@ Section Sound.
     end.
 
   Section Node.
-    Variables (bound : list var) (rho : env) (J : interp).
-    Hypothesis HR : env_rel bound rho J.
-    Hypothesis HB : bound_good bound.
+    Variables (rho : env) (J : interp).
+    Hypothesis HS : scope rho J.
+    Let HU := sc_table rho J HS.
 
     Ltac th name k Hv :=
-      eapply (theory_case name k); [exact HR | exact HB | reflexivity | reflexivity | reflexivity | exact Hv | ].
+      eapply (theory_case name k); [exact HU | reflexivity | reflexivity | reflexivity | exact Hv | ].
 
     Lemma vdiv_J a b : vdiv I a b = vdiv J a b.
-    Proof. destruct HR as (_ & _ & R & D). unfold vdiv. now rewrite R, D. Qed.
+    Proof. destruct (sc_div rho J HS) as [R D]. unfold vdiv. now rewrite R, D. Qed.
 
     Lemma node_sound o ss vals :
       op_ok o (List.length vals) = true ->
@@ -360,9 +524,9 @@ Section Sound.
     end.
 
   Section Consts.
-    Variables (bound : list var) (rho : env) (J : interp).
-    Hypothesis HR : env_rel bound rho J.
-    Hypothesis HB : bound_good bound.
+    Variables (rho : env) (J : interp).
+    Hypothesis HS : scope rho J.
+    Let HU := sc_table rho J HS.
 
     Lemma numeral_atom n : (0 <= n)%Z -> seval Sg I rho (Atom (dec_string n)) = Some (VInt n).
     Proof. intros H. cbn [seval]. unfold eval_atom. now rewrite numeral_dec. Qed.
@@ -376,7 +540,7 @@ Section Sound.
     Proof.
       unfold int_const. destruct (z <? 0)%Z eqn:E.
       - apply Z.ltb_lt in E.
-        eapply (theory_case "-" FMinus); [exact HR | exact HB | reflexivity | reflexivity | reflexivity | | ].
+        eapply (theory_case "-" FMinus); [exact HU | reflexivity | reflexivity | reflexivity | | ].
         + cbn [map all_some]. rewrite numeral_atom by lia. reflexivity.
         + cbn. now rewrite Z.opp_involutive.
       - apply Z.ltb_ge in E. now apply numeral_atom.
@@ -389,7 +553,7 @@ Section Sound.
     Proof.
       intros Hn Hd. destruct (d =? 1)%Z eqn:E.
       - apply Z.eqb_eq in E. subst. rewrite decimal_atom by assumption. do 2 f_equal. field.
-      - eapply (theory_case "/" FRealDiv); [exact HR | exact HB | reflexivity | reflexivity | reflexivity | | ].
+      - eapply (theory_case "/" FRealDiv); [exact HU | reflexivity | reflexivity | reflexivity | | ].
         + cbn [map all_some]. rewrite !decimal_atom by lia. reflexivity.
         + cbn. destruct (Req_EM_T (IZR d) 0) as [Z|Z]; [|reflexivity].
           apply eq_IZR_R0 in Z. lia.
@@ -399,7 +563,7 @@ Section Sound.
     Proof.
       intros Hd. unfold real_const, Q2R'. destruct (n <? 0)%Z eqn:E.
       - apply Z.ltb_lt in E.
-        eapply (theory_case "-" FMinus); [exact HR | exact HB | reflexivity | reflexivity | reflexivity | | ].
+        eapply (theory_case "-" FMinus); [exact HU | reflexivity | reflexivity | reflexivity | | ].
         + cbn [map all_some]. rewrite (real_body_sound (Z.abs n) d) by lia. reflexivity.
         + cbn. do 2 f_equal. rewrite Z.abs_neq by lia. rewrite opp_IZR. field.
           intros Z. apply eq_IZR_R0 in Z. lia.
@@ -420,58 +584,89 @@ Section Sound.
       - apply real_const_sound. now apply Z.ltb_lt.
       - destruct b; cbn [seval].
         + rewrite (eval_atom_symbol rho "true" "true" eq_refl).
-          now rewrite (const_head_unbound _ _ _ "true" _ HR HB eq_refl).
+          now rewrite (sc_consts rho J HS "true" _ eq_refl).
         + rewrite (eval_atom_symbol rho "false" "false" eq_refl).
-          now rewrite (const_head_unbound _ _ _ "false" _ HR HB eq_refl).
+          now rewrite (sc_consts rho J HS "false" _ eq_refl).
       - apply int_const_sound.
       - apply andb_true_iff in H. destruct H as [H H3]. apply andb_true_iff in H. destruct H as [H1 H2].
         apply bv_const_sound; lia.
     Qed.
   End Consts.
 
-  (* ------------------------------------------------ Bool-typed terms evaluate to Booleans *)
-  Fixpoint bfrag (t : term) : Prop :=
-    match t with
-    | T o args =>
-        match o with
-        | OIte => match args with [c; a; b] => bfrag a /\ bfrag b | _ => True end
-        | OSymbol _ _ | OFunction _ _ | OForall _ | OExists _ | OAnd | OOr | ONot | OImplies | OIff
-        | OLe | OLt | OEquals | OBVRel _ | OBoolC _ => True
-        | _ => False
-        end
-    end.
+  (* ------------------------------------------------ array values *)
+  Section Arr.
+    Variables (rho : env) (J : interp).
+    Hypothesis HS : scope rho J.
+    Let HU := sc_table rho J HS.
 
-  Lemma bool_kind : forall t J, wf_interp J -> bfrag t -> tc t = Some TBool -> exists b, eval J t = VBool b.
+    Lemma const_array_sound t pd dv i e :
+      sort_of_sexp Sg (sort_sexp t) = Some (TArr i e) -> seval Sg I rho pd = Some dv ->
+      seval Sg I rho (const_array t pd) = Some (VArr (fun _ => dv)).
+    Proof.
+      intros Ht Hd. unfold const_array. cbn [seval]. cbn [String.eqb Ascii.eqb Bool.eqb].
+      now rewrite Ht, Hd.
+    Qed.
+
+    Lemma store_chain_sound : forall pps vps base f,
+      seval Sg I rho base = Some (VArr f) ->
+      Forall2 (fun (p : sexp * sexp) (iv : value * value) =>
+                 seval Sg I rho (fst p) = Some (fst iv) /\ seval Sg I rho (snd p) = Some (snd iv)) pps vps ->
+      seval Sg I rho (store_chain base pps) = Some (VArr (chain_fun f vps)).
+    Proof.
+      intros pps vps base f Hb HF. revert base f Hb.
+      induction HF as [|[pk pv] [i v] pps vps [Hk Hv] _ IH]; intros base f Hb; cbn [store_chain chain_fun]; [exact Hb|].
+      apply IH. cbn [fst snd] in *.
+      eapply (theory_case "store" (FExact 3 OStore));
+        [exact HU | reflexivity | reflexivity | reflexivity
+        | cbn [map all_some]; rewrite Hb, Hk, Hv; reflexivity | reflexivity].
+    Qed.
+  End Arr.
+
+  (* ------------------------------------------------ sorts of values (C01's okt_sound) *)
+  Lemma okt_bool a J : okt a = true -> tc a = Some TBool -> wf_interp J -> exists b, eval J a = VBool b.
   Proof.
-    induction t as [o args IH] using term_ind'. intros J HW HF HT.
-    destruct o; cbn [bfrag] in HF; try contradiction; cbn [eval].
-    - destruct args as [|b [|c r]]; eauto.
-    - destruct args as [|b [|c r]]; eauto.
-    - cbn; eauto.
-    - cbn; eauto.
-    - destruct (map (eval J) args) as [|a [|b r]]; cbn; eauto.
-    - destruct (map (eval J) args) as [|a [|b [|c r]]]; cbn; eauto.
-    - destruct (map (eval J) args) as [|a [|b [|c r]]]; cbn; eauto.
-    - (* symbol *) rewrite tc_tcs in HT. destruct (tcs args) as [tys|]; [|discriminate]. cbn in HT.
-      destruct tys; [|discriminate]. injection HT as ->. destruct HW as [HW _]. specialize (HW n TBool). cbn in HW.
-      destruct (isym J n TBool); try contradiction. eauto.
-    - (* function *) rewrite tc_tcs in HT. destruct (tcs args) as [tys|]; [|discriminate]. cbn in HT.
-      destruct t; try discriminate. destruct (tys_eqb tys ps); [|discriminate]. injection HT as ->.
-      destruct HW as [_ HW]. specialize (HW n ps TBool (map (eval J) args)). cbn in HW.
-      destruct (ifun J n (TFun ps TBool) (map (eval J) args)); try contradiction. eauto.
-    - destruct (map (eval J) args); cbn; eauto.
-    - destruct (map (eval J) args) as [|a [|b [|c r]]]; cbn; eauto; destruct a, b; cbn; eauto.
-    - destruct (map (eval J) args) as [|a [|b [|c r]]]; cbn; eauto; destruct a, b; cbn; eauto.
-    - destruct (map (eval J) args) as [|a [|b [|c r]]]; cbn; eauto.
-    - (* ite *) destruct args as [|c [|a [|b [|d r]]]]; cbn; eauto.
-      destruct HF as [Fa Fb]. rewrite tc_tcs in HT. cbn [tcs] in HT.
-      destruct (tc c) as [tc_|]; [|discriminate]. destruct (tc a) as [ta|] eqn:Ea; [|discriminate].
-      destruct (tc b) as [tb|] eqn:Eb; [|discriminate]. cbn in HT.
-      destruct (ty_eqb tc_ TBool && ty_eqb ta tb) eqn:E; [|discriminate]. injection HT as ->.
-      apply andb_true_iff in E. destruct E as [_ E]. apply ty_eqb_eq in E. subst tb.
-      inversion IH as [|? ? _ IH1]; subst. inversion IH1 as [|? ? Ha IH2]; subst. inversion IH2 as [|? ? Hb _]; subst.
-      destruct (vbool (eval J c)); [apply Ha | apply Hb]; auto.
-    - (* bv relations *) destruct (map (eval J) args) as [|a [|b [|c r]]]; destruct k; cbn; eauto; destruct a; cbn; eauto; destruct b; cbn; eauto.
+    intros Ho Ht HJ. pose proof (SimplifierSemBase_proofs.okt_sound a J TBool Ho Ht
+                                   (proj1 (SimplifierSemBase_proofs.wf_interp_wfi J) HJ)) as H.
+    destruct (eval J a); try contradiction. eauto.
+  Qed.
+  Lemma okt_bv a J w : okt a = true -> tc a = Some (TBV w) -> wf_interp J -> exists x, eval J a = VBV w x.
+  Proof.
+    intros Ho Ht HJ. pose proof (SimplifierSemBase_proofs.okt_sound a J (TBV w) Ho Ht
+                                   (proj1 (SimplifierSemBase_proofs.wf_interp_wfi J) HJ)) as H.
+    destruct (eval J a); try contradiction. destruct H as [-> _]. eauto.
+  Qed.
+
+  (* ------------------------------------------------ indexed identifiers, string literals *)
+  Lemma seval_indexed name idx ss rho :
+    seval Sg I rho (SList (SList (Atom "_" :: Atom name :: idx) :: ss)) =
+    match idx_vals idx, all_some (map (seval Sg I rho) ss) with
+    | Some ix, Some args => apply_indexed name ix args
+    | _, _ => None
+    end.
+  Proof. reflexivity. Qed.
+  Lemma idx_numeral z : (0 <= z)%Z -> numeral_val (py_int_str z) = Some z.
+  Proof.
+    intros H. unfold py_int_str. destruct (z <? 0)%Z eqn:E; [apply Z.ltb_lt in E; lia|]. now apply numeral_dec.
+  Qed.
+  Lemma indexed1_sound rho name k pa av v :
+    (0 <= k)%Z -> seval Sg I rho pa = Some av -> apply_indexed name [k] [av] = Some v ->
+    seval Sg I rho (SList [SList [Atom "_"; Atom name; Atom (py_int_str k)]; pa]) = Some v.
+  Proof.
+    intros Hk Ha Hv. rewrite seval_indexed. unfold idx_vals. cbn [map all_some].
+    now rewrite (idx_numeral _ Hk), Ha.
+  Qed.
+  Lemma indexed2_sound rho name i j pa av v :
+    (0 <= i)%Z -> (0 <= j)%Z -> seval Sg I rho pa = Some av -> apply_indexed name [i; j] [av] = Some v ->
+    seval Sg I rho (SList [SList [Atom "_"; Atom name; Atom (py_int_str i); Atom (py_int_str j)]; pa]) = Some v.
+  Proof.
+    intros Hi Hj Ha Hv. rewrite seval_indexed. unfold idx_vals. cbn [map all_some].
+    now rewrite (idx_numeral _ Hi), (idx_numeral _ Hj), Ha.
+  Qed.
+  Lemma str_const_sound rho s : str_plain s = true -> seval Sg I rho (str_const s) = Some (VStr s).
+  Proof.
+    intros H. unfold str_const. cbn [seval]. unfold eval_atom.
+    rewrite numeral_quote, decimal_quote. cbn [bvlit_val strlit_val]. cbn [Ascii.eqb Bool.eqb].
+    now rewrite (strlit_plain _ H).
   Qed.
 
   (* ------------------------------------------------ well-formedness for printing (syntactic) *)
@@ -503,8 +698,32 @@ Section Sound.
             match args with [b] => wfp (List.rev vs ++ bound) b | _ => False end
         | OIff =>
             match args with
-            | [a; b] => tc a = Some TBool /\ tc b = Some TBool /\ bfrag a /\ bfrag b /\ wfp bound a /\ wfp bound b
+            | [a; b] => tc a = Some TBool /\ tc b = Some TBool /\ okt a = true /\ okt b = true /\
+                        wfp bound a /\ wfp bound b
             | _ => False
+            end
+        | OBVExtract _ s e =>
+            match args with
+            | [a] => okt a = true /\ (exists wa, tc a = Some (TBV wa)) /\ (0 <= s)%Z /\ (0 <= e)%Z /\ wfp bound a
+            | _ => False
+            end
+        | OBVRol w k | OBVRor w k =>
+            match args with
+            | [a] => okt a = true /\ tc a = Some (TBV w) /\ (0 <= k)%Z /\ wfp bound a
+            | _ => False
+            end
+        | OBVZext w k | OBVSext w k =>
+            match args with
+            | [a] => okt a = true /\ (exists wa, tc a = Some (TBV wa) /\ w = (wa + k)%Z) /\ (0 <= k)%Z /\ wfp bound a
+            | _ => False
+            end
+        | OStrC s => args = [] /\ str_plain s = true
+        | OArrayValue it =>
+            match args with
+            | d :: assigns =>
+                (exists i e, sort_of_sexp Sg (sort_sexp (array_value_type it d)) = Some (TArr i e)) /\
+                av_keys_ok assigns = true /\ conj_all (wfp bound) args
+            | [] => False
             end
         | _ => (args = [] /\ const_ok o = true \/ op_ok o (List.length args) = true) /\ conj_all (wfp bound) args
         end
@@ -545,29 +764,184 @@ Section Sound.
     rewrite (symbol_atom_sym _ _ Hs), Ht, IH. reflexivity.
   Qed.
 
-  Lemma generic_case o args bound rho J :
-    print_tree (T o args) = node_sexp o (map print_tree args) ->
+  (* ------------------------------------------------ ONE node, from the values of its arguments' texts *)
+  Definition clause (bound : list var) (rho : env) (J : interp) (n : string) : Prop :=
+    match assoc n bound with
+    | Some ty => assoc n rho = Some (isym J n ty)
+    | None => assoc n rho = None /\ forall ty, isym J n ty = isym I n ty
+    end.
+  (* the node's own name, if it is a symbol or an applied function, is looked up correctly *)
+  Definition name_ok (bound : list var) (rho : env) (J : interp) (t : term) : Prop :=
+    match t with
+    | T (OSymbol n _) _ => clause bound rho J n
+    | T (OFunction n _) _ => assoc n rho = None
+    | _ => True
+    end.
+  Definition is_quant (o : op) : bool := match o with OForall _ | OExists _ => true | _ => false end.
+  (* the text of a node: for an array value, a store chain over the assignments in SOME order *)
+  Definition node_text (t : term) (ss : list sexp) (ordered : list (sexp * sexp)) : sexp :=
+    match t, ss with
+    | T (OArrayValue it) (d :: _), pd :: _ => store_chain (const_array (array_value_type it d) pd) ordered
+    | _, _ => term_sexp t ss
+    end.
+
+  Lemma args_vals (rho : env) (J : interp) args ss :
+    Forall2 (fun a s => seval Sg I rho s = Some (eval J a)) args ss ->
+    all_some (map (seval Sg I rho) ss) = Some (map (eval J) args).
+  Proof. induction 1 as [|a s args ss Hs _ IH]; cbn; [reflexivity|]. now rewrite Hs, IH. Qed.
+
+  Lemma generic_case o args ss rho J :
+    term_sexp (T o args) ss = node_sexp o ss ->
     eval J (T o args) = op_sem J o (map (eval J) args) ->
-    o <> OIff -> env_rel bound rho J -> bound_good bound ->
-    all_some (map (seval Sg I rho) (map print_tree args)) = Some (map (eval J) args) ->
+    o <> OIff -> scope rho J ->
+    all_some (map (seval Sg I rho) ss) = Some (map (eval J) args) ->
     (args = [] /\ const_ok o = true \/ op_ok o (List.length args) = true) ->
-    seval Sg I rho (print_tree (T o args)) = Some (eval J (T o args)).
+    seval Sg I rho (term_sexp (T o args) ss) = Some (eval J (T o args)).
   Proof.
-    intros -> -> Hn HR HB Hv [[-> Hc]|Hok].
-    - cbn [map]. unfold node_sexp. destruct o; try discriminate Hc; cbn [op_head]; eapply const_sound; eauto.
-    - eapply node_sound; eauto; [now rewrite map_length | intros ->; contradiction].
+    intros -> -> Hn HS Hv [[-> Hc]|Hok].
+    - cbn [map] in *. destruct ss as [|s0 r];
+        [| cbn [map all_some] in Hv; destruct (seval Sg I rho s0); [destruct (all_some _)|]; discriminate Hv].
+      unfold node_sexp. destruct o; try discriminate Hc; cbn [op_head]; now apply const_sound.
+    - apply node_sound; auto; [now rewrite map_length | intros ->; contradiction].
   Qed.
 
+  Lemma node_value o args ss ordered bound rho J :
+    is_quant o = false -> wfp bound (T o args) -> scope rho J -> name_ok bound rho J (T o args) -> wf_interp J ->
+    Forall2 (fun a s => seval Sg I rho s = Some (eval J a)) args ss ->
+    Permutation (pairs_of (List.tl ss)) ordered ->
+    seval Sg I rho (node_text (T o args) ss ordered) = Some (eval J (T o args)).
+  Proof.
+    intros Hq HW HS HN HJ HF HP. pose proof (args_vals rho J args ss HF) as Hargs.
+    destruct o; try discriminate Hq;
+      try (cbn [wfp] in HW; destruct HW as [Hc Hrec];
+           change (node_text (T ?o args) ss ordered) with (term_sexp (T o args) ss);
+           apply generic_case; [reflexivity | reflexivity | discriminate | assumption | assumption | exact Hc]);
+      try (exfalso; cbn [wfp] in HW; destruct HW as [[[_ Hc]|Hok] _]; [discriminate Hc | discriminate Hok]).
+    - (* iff *)
+      destruct args as [|a [|b [|c r]]]; cbn [wfp] in HW; try contradiction.
+      destruct HW as (Ta & Tb & Oa & Ob & Wa & Wb).
+      change (eval J (T OIff [a; b])) with (op_sem J OIff [eval J a; eval J b]).
+      change (node_text (T OIff [a; b]) ss ordered) with (node_sexp OIff ss).
+      apply node_sound; auto.
+      intros _. destruct (okt_bool a J Oa Ta HJ) as [x ->]. destruct (okt_bool b J Ob Tb HJ) as [y ->]. eauto.
+    - (* symbol *)
+      cbn [wfp] in HW. destruct HW as (-> & Hn & Hs). apply good_name_inv in Hn. destruct Hn as (Hsym & Hc & _).
+      inversion HF; subst. cbn [node_text term_sexp node_sexp op_head leaf_sexp seval eval].
+      rewrite (eval_atom_symbol rho _ _ Hsym). cbn [name_ok] in HN. unfold clause in HN.
+      unfold var in *. destruct (assoc n bound) as [ty'|].
+      + subst ty'. now rewrite HN.
+      + destruct HN as [-> HI]. destruct Hs as [-> Hfo]. rewrite Hc. rewrite HI. destruct t; try discriminate Hfo; reflexivity.
+    - (* function *)
+      cbn [wfp] in HW. destruct HW as (Hn & Hnb & Hd & (ps & r & -> & Hlen & Hne) & Hrec).
+      apply good_name_inv in Hn. destruct Hn as (Hsym & _ & Ht). apply symbol_atom_sym in Hsym.
+      cbn [node_text term_sexp node_sexp op_head eval].
+      rewrite (seval_app _ _ _ (sym_head_plain _ _ Hsym)), Hsym, Hargs.
+      unfold apply_sym. cbn [name_ok] in HN. rewrite HN, Ht, Hd, map_length, Hlen, Nat.eqb_refl, (sc_fun rho J HS).
+      destruct args; [contradiction Hne; reflexivity|]. reflexivity.
+    - (* string constant *)
+      cbn [wfp] in HW. destruct HW as [-> Hs]. inversion HF; subst.
+      cbn [node_text term_sexp node_sexp op_head leaf_sexp eval op_sem map].
+      now apply str_const_sound.
+    - (* extract *)
+      destruct args as [|a [|b r]]; cbn [wfp] in HW; try contradiction.
+      destruct HW as (Oa & (wa & Ta) & Hs & He & Wa).
+      inversion HF as [|? sa ? ? Hsa HF']; subst. inversion HF'; subst.
+      change (eval J (T (OBVExtract w s e) [a])) with (op_sem J (OBVExtract w s e) [eval J a]).
+      destruct (okt_bv a J wa Oa Ta HJ) as [x Ex]. rewrite Ex in *.
+      cbn [node_text term_sexp node_sexp op_head].
+      apply (indexed2_sound rho "extract" e s sa (VBV wa x)); [exact He | exact Hs | exact Hsa | reflexivity].
+    - (* rotate_left *)
+      destruct args as [|a [|b r]]; cbn [wfp] in HW; try contradiction.
+      destruct HW as (Oa & Ta & Hk & Wa).
+      inversion HF as [|? sa ? ? Hsa HF']; subst. inversion HF'; subst.
+      change (eval J (T (OBVRol w k) [a])) with (op_sem J (OBVRol w k) [eval J a]).
+      destruct (okt_bv a J w Oa Ta HJ) as [x Ex]. rewrite Ex in *.
+      cbn [node_text term_sexp node_sexp op_head].
+      apply (indexed1_sound rho "rotate_left" k sa (VBV w x)); [exact Hk | exact Hsa | reflexivity].
+    - (* rotate_right *)
+      destruct args as [|a [|b r]]; cbn [wfp] in HW; try contradiction.
+      destruct HW as (Oa & Ta & Hk & Wa).
+      inversion HF as [|? sa ? ? Hsa HF']; subst. inversion HF'; subst.
+      change (eval J (T (OBVRor w k) [a])) with (op_sem J (OBVRor w k) [eval J a]).
+      destruct (okt_bv a J w Oa Ta HJ) as [x Ex]. rewrite Ex in *.
+      cbn [node_text term_sexp node_sexp op_head].
+      apply (indexed1_sound rho "rotate_right" k sa (VBV w x)); [exact Hk | exact Hsa | reflexivity].
+    - (* zero_extend *)
+      destruct args as [|a [|b r]]; cbn [wfp] in HW; try contradiction.
+      destruct HW as (Oa & (wa & Ta & ->) & Hk & Wa).
+      inversion HF as [|? sa ? ? Hsa HF']; subst. inversion HF'; subst.
+      change (eval J (T (OBVZext (wa + k) k) [a])) with (op_sem J (OBVZext (wa + k) k) [eval J a]).
+      destruct (okt_bv a J wa Oa Ta HJ) as [x Ex]. rewrite Ex in *.
+      cbn [node_text term_sexp node_sexp op_head].
+      apply (indexed1_sound rho "zero_extend" k sa (VBV wa x)); [exact Hk | exact Hsa | reflexivity].
+    - (* sign_extend *)
+      destruct args as [|a [|b r]]; cbn [wfp] in HW; try contradiction.
+      destruct HW as (Oa & (wa & Ta & ->) & Hk & Wa).
+      inversion HF as [|? sa ? ? Hsa HF']; subst. inversion HF'; subst.
+      change (eval J (T (OBVSext (wa + k) k) [a])) with (op_sem J (OBVSext (wa + k) k) [eval J a]).
+      destruct (okt_bv a J wa Oa Ta HJ) as [x Ex]. rewrite Ex in *.
+      cbn [node_text term_sexp node_sexp op_head].
+      apply (indexed1_sound rho "sign_extend" k sa (VBV wa x)); [exact Hk | exact Hsa | reflexivity].
+    - (* array value *)
+      destruct args as [|d assigns]; cbn [wfp] in HW; [contradiction|].
+      destruct HW as ((ti & te & Hsort) & Hkeys & Hrec).
+      inversion HF as [|? pd ? sa Hd HFa]; subst.
+      change (eval J (T (OArrayValue it) (d :: assigns)))
+        with (VArr (arr_assign (fun _ => eval J d) (map (eval J) assigns))).
+      cbn [node_text List.tl] in *.
+      set (tps := pairs_of assigns).
+      set (vps := map (fun kv : term * term => (eval J (fst kv), eval J (snd kv))) tps).
+      assert (F : Forall2 (fun (p : sexp * sexp) (iv : value * value) =>
+                             seval Sg I rho (fst p) = Some (fst iv) /\ seval Sg I rho (snd p) = Some (snd iv))
+                          (pairs_of sa) vps).
+      { subst vps tps. clear - HFa. revert sa HFa. generalize assigns.
+        fix IHl 1. intros [|a [|b r]] sa HFa; inversion HFa as [|? s1 ? sr H1 HF1]; subst; cbn [pairs_of map]; try constructor.
+        - inversion HF1; subst. constructor.
+        - inversion HF1 as [|? s2 ? sr2 H2 HF2]; subst. cbn [pairs_of]. constructor; [cbn [fst snd]; auto | now apply IHl]. }
+      destruct (Permutation_Forall2 HP F) as (vps' & HPv & F').
+      rewrite (store_chain_sound rho J HS ordered vps' _ (fun _ => eval J d)
+                 (const_array_sound rho _ _ _ _ _ Hsort Hd) F').
+      do 2 f_equal.
+      rewrite (arr_assign_pairs _ (map (eval J) assigns)), (pairs_of_map (eval J)). fold tps. fold vps.
+      apply chain_fun_assign; [exact HPv|].
+      subst vps. unfold pkeys. rewrite map_map. cbn [fst].
+      unfold av_keys_ok in Hkeys. apply andb_true_iff in Hkeys. destruct Hkeys as [K1 K2].
+      rewrite <- (map_map fst (fun a => to_key (eval J a))). now apply nodup_keys.
+    - (* div *)
+      cbn [wfp] in HW. destruct HW as [Hc Hrec]. destruct Hc as [[_ Hc]|Hok]; [discriminate Hc|].
+      change (eval J (T ODiv args)) with (op_sem J ODiv (map (eval J) args)).
+      change (node_text (T ODiv args) ss ordered) with (SList (Atom (div_name (T ODiv args)) :: ss)).
+      apply div_sound; auto.
+      + unfold div_name. destruct (tc (T ODiv args)) as [[]|]; auto.
+      + rewrite map_length. now apply Nat.eqb_eq.
+  Qed.
+
+  (* ------------------------------------------------ the tree printer *)
   Definition sound_at (t : term) : Prop :=
     forall bound rho J, wfp bound t -> env_rel bound rho J -> bound_good bound -> wf_interp J ->
                         seval Sg I rho (print_tree t) = Some (eval J t).
 
-  Lemma args_sound args bound rho J :
-    Forall sound_at args -> conj_all (wfp bound) args -> env_rel bound rho J -> bound_good bound -> wf_interp J ->
-    all_some (map (seval Sg I rho) (map print_tree args)) = Some (map (eval J) args).
+  Lemma wfp_args o args bound : is_quant o = false -> wfp bound (T o args) -> conj_all (wfp bound) args.
   Proof.
-    intros HF. induction HF as [|a r Ha _ IH]; cbn; intros HW HR HB HJ; [reflexivity|].
-    destruct HW as [Hwa Hwr]. now rewrite (Ha _ _ _ Hwa HR HB HJ), (IH Hwr HR HB HJ).
+    intros Hq HW. destruct o; try discriminate Hq; cbn [wfp] in HW;
+      try (destruct HW as [_ HW]; exact HW).
+    - destruct args as [|a [|b [|c r]]]; try contradiction. cbn. tauto.
+    - destruct HW as (-> & _). exact Logic.I.
+    - tauto.
+    - destruct HW as (-> & _). exact Logic.I.
+    - destruct args as [|a [|b r]]; try contradiction. cbn. tauto.
+    - destruct args as [|a [|b r]]; try contradiction. cbn. tauto.
+    - destruct args as [|a [|b r]]; try contradiction. cbn. tauto.
+    - destruct args as [|a [|b r]]; try contradiction. cbn. tauto.
+    - destruct args as [|a [|b r]]; try contradiction. cbn. tauto.
+    - destruct args as [|d assigns]; [contradiction|]. tauto.
+  Qed.
+
+  Lemma env_rel_name_ok bound rho J t : env_rel bound rho J -> wfp bound t -> name_ok bound rho J t.
+  Proof.
+    intros (H & _) HW. destruct t as [o args]. destruct o; cbn [name_ok]; auto.
+    - exact (H n).
+    - cbn [wfp] in HW. destruct HW as (_ & Hnb & _). specialize (H n). unfold var in *. rewrite Hnb in H. tauto.
   Qed.
 
   Lemma quant_sound (q : string) vs b bound rho J :
@@ -584,14 +958,34 @@ Section Sound.
     - now apply wf_bind.
   Qed.
 
+  Lemma print_tree_node o args :
+    is_quant o = false ->
+    print_tree (T o args) =
+    node_text (T o args) (map print_tree args)
+      (map snd (sort_by_key (combine (map (fun kv : term * term => hr_const (fst kv)) (pairs_of (List.tl args)))
+                                     (pairs_of (List.tl (map print_tree args)))))).
+  Proof.
+    intros Hq. destruct o; try discriminate Hq; try reflexivity.
+    destruct args as [|d assigns]; reflexivity.
+  Qed.
+
   Theorem print_tree_sound_gen : forall t, sound_at t.
   Proof.
     induction t as [o args IH] using term_ind'. intros bound rho J HW HR HB HJ.
-    destruct o;
-      try (cbn [wfp] in HW; destruct HW as [Hc Hrec];
-           apply (generic_case _ _ bound); [reflexivity | reflexivity | discriminate | assumption | assumption
-                               | now apply (args_sound args bound rho J) | exact Hc]);
-      try (exfalso; cbn [wfp] in HW; destruct HW as [[[_ Hc]|Hok] _]; [discriminate Hc | discriminate Hok]).
+    destruct (is_quant o) eqn:Hq.
+    2:{ rewrite (print_tree_node o args Hq).
+        apply (node_value o args _ _ bound); auto.
+        - now apply (env_rel_scope bound).
+        - now apply env_rel_name_ok.
+        - pose proof (wfp_args o args bound Hq HW) as Hrec. clear HW Hq.
+          induction IH as [|a r Ha _ IHr]; cbn [map]; [constructor|]. destruct Hrec as [Hwa Hwr].
+          constructor; [exact (Ha _ _ _ Hwa HR HB HJ) | now apply IHr].
+        - rewrite <- (map_snd_combine (map (fun kv : term * term => hr_const (fst kv)) (pairs_of (List.tl args)))
+                                     (pairs_of (List.tl (map print_tree args)))) at 1.
+          + apply Permutation_map. symmetry. apply sort_by_key_perm.
+          + replace (List.tl (map print_tree args)) with (map print_tree (List.tl args)) by (destruct args; reflexivity).
+            rewrite (pairs_of_map print_tree), !map_length. reflexivity. }
+    destruct o; try discriminate Hq.
     - (* forall *)
       cbn [wfp] in HW. destruct HW as (Hne & HG & HW). destruct args as [|b [|c r]]; try contradiction.
       inversion IH as [|? ? Hb _]; subst.
@@ -610,38 +1004,6 @@ Section Sound.
       + rewrite (quant_sound "exists" (v :: vs) b bound rho J eq_refl Hb Hne HG HW HR HB HJ xs Hok) in H.
         now injection H.
       + rewrite (quant_sound "exists" (v :: vs) b bound rho J eq_refl Hb Hne HG HW HR HB HJ xs Hok). now rewrite H.
-    - (* iff *)
-      destruct args as [|a [|b [|c r]]]; cbn [wfp] in HW; try contradiction.
-      destruct HW as (Ta & Tb & Fa & Fb & Wa & Wb).
-      inversion IH as [|? ? Ha IH1]; subst. inversion IH1 as [|? ? Hb _]; subst.
-      change (print_tree (T OIff [a; b])) with (node_sexp OIff [print_tree a; print_tree b]).
-      change (eval J (T OIff [a; b])) with (op_sem J OIff [eval J a; eval J b]).
-      eapply node_sound; eauto.
-      + intros _. destruct (bool_kind a J HJ Fa Ta) as [x ->]. destruct (bool_kind b J HJ Fb Tb) as [y ->]. eauto.
-      + cbn [map all_some]. now rewrite (Ha _ _ _ Wa HR HB HJ), (Hb _ _ _ Wb HR HB HJ).
-    - (* symbol *)
-      cbn [wfp] in HW. destruct HW as (-> & Hn & Hs). apply good_name_inv in Hn. destruct Hn as (Hsym & Hc & _).
-      cbn [print_tree map term_sexp node_sexp op_head leaf_sexp seval eval].
-      rewrite (eval_atom_symbol rho _ _ Hsym). destruct HR as (HR & _). specialize (HR n).
-      unfold var in *. destruct (assoc n bound) as [ty'|].
-      + subst ty'. now rewrite HR.
-      + destruct HR as [-> HI]. destruct Hs as [-> Hfo]. rewrite Hc. rewrite HI. destruct t; try discriminate Hfo; reflexivity.
-    - (* function *)
-      cbn [wfp] in HW. destruct HW as (Hn & Hnb & Hd & (ps & r & -> & Hlen & Hne) & Hrec).
-      apply good_name_inv in Hn. destruct Hn as (Hsym & _ & Ht). apply symbol_atom_sym in Hsym.
-      cbn [print_tree term_sexp node_sexp op_head eval].
-      rewrite (seval_app _ _ _ (sym_head_plain _ _ Hsym)), Hsym, (args_sound args bound rho J IH Hrec HR HB HJ).
-      unfold apply_sym. destruct HR as (HR & HF & _). specialize (HR n). unfold var in *. rewrite Hnb in HR.
-      destruct HR as [-> _]. rewrite Ht, Hd, map_length, Hlen, Nat.eqb_refl, HF.
-      destruct args; [contradiction Hne; reflexivity|]. reflexivity.
-    - (* div *)
-      cbn [wfp] in HW. destruct HW as [Hc Hrec]. destruct Hc as [[_ Hc]|Hok]; [discriminate Hc|].
-      change (eval J (T ODiv args)) with (op_sem J ODiv (map (eval J) args)).
-      change (print_tree (T ODiv args)) with (SList (Atom (div_name (T ODiv args)) :: map print_tree args)).
-      eapply div_sound; eauto.
-      + unfold div_name. destruct (tc (T ODiv args)) as [[]|]; auto.
-      + rewrite map_length. now apply Nat.eqb_eq.
-      + now apply (args_sound args bound rho J).
   Qed.
 End Sound.
 
@@ -649,21 +1011,24 @@ End Sound.
 (* Full statement (DESIGN.md C07), for the record:
      print_tree_sound : tc t = Some ty -> printable_names t ->
                         std_eval Sigma_t I (print_tree t) = Some (eval I t)     for ALL terms t.
-   It is FALSE of the faithful model (see the _refuted lemma below: pow is not an SMT-LIB symbol;
-   before the repairs of 2026-09 also str.to.int, int.to.str and Int division written with the
-   Real-only function /, now positive: print_tree_repaired_spellings), so what is proved is the
-   _partial statement: [wfp Sg [] t] is the explicit fragment predicate
-   (core/SmtStd.v-independent, syntactic):
-     - every operator except Pow, the indexed BV operators (extract, rotate, extend), string
-       constants and array values (stages not proved yet) - i.e. Bool, ITE, Equals, Int/Real
-       arithmetic (Int and Real division) and constants, quantifiers, UF, BV constants and all
-       non-indexed BV operators, select/store, all string operators;
+   It is FALSE of the faithful model (print_tree_sound_refuted_pow: pow is not an SMT-LIB symbol),
+   so what is proved is the _partial statement.  [wfp Sg [] t] is the explicit, syntactic fragment
+   predicate.  It admits EVERY operator except Pow, and asks:
      - constructor arities (n-ary operators have >= 2 arguments), Real constants with positive
        denominator, BV constants in range;
      - every symbol name is [good_name] (its quoted form reads back as that symbol; it is not a
-       theory symbol), is used at one sort per scope, and free symbols are declared in Sg at that
-       sort; bound variables have sorts that [sort_of_sexp] reads back;
-     - the arguments of Iff are Bool-typed terms built without a Bool-valued array read. *)
+       theory symbol - the property's own exclusions, plus the open finding about | and \), is
+       used at one sort per scope, and free symbols are declared in Sg at that sort; sorts of
+       bound variables and of array values are sorts [sort_of_sexp] reads back (declared);
+     - string constants are [str_plain]: printable ASCII without backslash (the open finding
+       string-literal-escape: anything else is not denoted by its verbatim text);
+     - array values: the assigned indices are pairwise distinct Bool/Int/BV/String constants
+       ([av_keys_ok]; what Array() guarantees, minus Real indices, whose constants core/Syntax.v
+       does not force into lowest terms);
+     - where the meaning of the text depends on the SORT of an argument - both arguments of Iff,
+       the argument of extract / rotate / extend - that argument is Bool- resp. BV-typed by [tc]
+       and lies in C01's fragment [okt] (whose theorem okt_sound gives the sort of its value);
+       extend: the stored width is argument width + k. *)
 Theorem print_tree_sound_partial : forall Sg I t,
   wfp Sg [] t -> wf_interp I -> std_eval Sg I (print_tree t) = Some (eval I t).
 Proof.
@@ -688,6 +1053,17 @@ Proof.
   cbn. repeat split; try reflexivity; try discriminate; eauto.
   - repeat constructor.
   - exists [TInt], TBool. repeat split; discriminate.
+Qed.
+(* ... and by one with indexed bit-vector operators, a string constant with quotes, an array value *)
+Definition ex_term3 : term :=
+  let v := TSym "v" (TBV 4) in
+  T OAnd [ T OEquals [T (OBVExtract 2 1 2) [T (OBVRol 4 3) [v]]; T (OBVExtract 2 0 1) [T (OBVSext 6 2) [T (OBVZext 4 0) [T (OBVRor 4 1) [v]]]]];
+           T OEquals [T (OStr SConcat) [TStrC [97; 34; 98]; TStrC []]; TStrC [32]];
+           T OLt [T OSelect [T (OArrayValue TInt) [TRealC 1 2; TIntC 10; TRealC (-1) 1; TIntC 9; TRealC 0 1]; TSym "x" TInt]; TRealC 2 1] ].
+Example ex_term3_wfp : wfp ex_sig [] ex_term3 /\ tc ex_term3 = Some TBool.
+Proof.
+  split; [|reflexivity]. cbn. repeat split; try reflexivity; try discriminate; try lia; eauto.
+  all: try (eexists; split; reflexivity). all: try (do 2 eexists; reflexivity).
 Qed.
 Example ex_term_typed : tc ex_term = Some TBool.
 Proof. reflexivity. Qed.
@@ -760,18 +1136,582 @@ Proof.
     rewrite (let1_sound Sg I rho n e _ x Hn He). now apply IH.
 Qed.
 
-(* what is proved about the DAG printer's output for ALL terms: it is the chain of single-binding
-   lets the printer accumulated (oldest outermost) around the memoised text of the root, and its
-   standard meaning is the meaning of that text in the environment the lets build one after the
-   other - parallel and sequential let coincide because every let binds one name.  The remaining
-   obligation (each bound text and the root text evaluate to the value of their terms, because
-   let-names are fresh) is the invariant not proved yet. *)
-Theorem print_dag_sound_partial : forall Sg I t rho',
-  let st := dag_visit (names_of t) t dst0 in
-  lets_env Sg I (List.rev (d_lets st)) [] = Some rho' ->
-  std_eval Sg I (print_dag t) =
-  seval Sg I rho' (match memo_get t (d_memo st) with Some r => r | None => Atom "?" end).
-Proof. intros Sg I t rho' st H. unfold std_eval, print_dag. now apply wrap_lets_sound. Qed.
+(* ========================================================================= the DAG printer *)
+(* ------------------------------------------------ let-names: lexical facts *)
+Lemma def_name_unfold k :
+  def_name k = String "." (String "d" (String "e" (String "f" (String "_" (dec_string (Z.of_nat k)))))).
+Proof. reflexivity. Qed.
+Lemma digit_symchar c : is_digit_c c = true -> is_symchar c = true.
+Proof. intros H. unfold is_symchar. now rewrite H. Qed.
+Lemma str_forall_imp (p q : ascii -> bool) s : (forall c, p c = true -> q c = true) ->
+  str_forall p s = true -> str_forall q s = true.
+Proof.
+  intros Hpq. induction s as [|c s IH]; cbn; [auto|]. intros H. apply andb_true_iff in H. destruct H as [Hc Hs].
+  now rewrite (Hpq _ Hc), (IH Hs).
+Qed.
+Lemma dec_symchars n : str_forall is_symchar (dec_string n) = true.
+Proof. apply (str_forall_imp is_digit_c); [apply digit_symchar | apply dec_digits]. Qed.
+Lemma def_symbol k : symbol_atom (def_name k) (def_name k) = true.
+Proof.
+  rewrite def_name_unfold. set (d := dec_string (Z.of_nat k)). unfold symbol_atom.
+  assert (N : numeral_val (String "." (String "d" (String "e" (String "f" (String "_" d))))) = None).
+  { unfold numeral_val. cbn. destruct (NilEmpty.uint_of_string d); reflexivity. }
+  rewrite N. unfold decimal_val. cbn [split_dot Ascii.eqb Bool.eqb]. cbn [numeral_val NilZero.uint_of_string].
+  cbn [bvlit_val strlit_val Ascii.eqb Bool.eqb].
+  unfold sym_name, simple_symbol.
+  assert (S1 : str_forall is_symchar (String "." (String "d" (String "e" (String "f" (String "_" d))))) = true)
+    by (cbn [str_forall]; subst d; rewrite dec_symchars; reflexivity).
+  assert (S2 : mem_str (String "." (String "d" (String "e" (String "f" (String "_" d))))) reserved_words = false)
+    by reflexivity.
+  rewrite S1, S2. cbn [negb andb is_digit_c code nat_of_ascii]. cbn. apply String.eqb_refl.
+Qed.
+Lemma def_sym_name k : sym_name (def_name k) = Some (def_name k).
+Proof. apply symbol_atom_sym, def_symbol. Qed.
+Lemma def_not_theory k : assoc (def_name k) std_table = None /\ assoc (def_name k) std_consts = None.
+Proof. rewrite def_name_unfold. split; reflexivity. Qed.
+Lemma dec_string_inj a b : (0 <= a)%Z -> (0 <= b)%Z -> dec_string a = dec_string b -> a = b.
+Proof. intros Ha Hb E. pose proof (numeral_dec a Ha) as H1. rewrite E, (numeral_dec b Hb) in H1. congruence. Qed.
+Lemma def_name_inj j k : def_name j = def_name k -> j = k.
+Proof.
+  rewrite !def_name_unfold. intros E. injection E as E. apply dec_string_inj in E; lia.
+Qed.
+Lemma strip_symchars s : str_forall is_symchar s = true -> strip_final_newline s = s.
+Proof.
+  induction s as [|c s IH]; [reflexivity|]. cbn [str_forall]. intros H. apply andb_true_iff in H. destruct H as [Hc Hs].
+  cbn [strip_final_newline]. destruct s as [|c' s'].
+  - destruct (Ascii.eqb_spec c (ascii_of_nat 10)); [subst; discriminate Hc | reflexivity].
+  - now rewrite (IH Hs).
+Qed.
+Lemma def_symchars k : str_forall is_symchar (def_name k) = true.
+Proof. rewrite def_name_unfold. cbn [str_forall]. rewrite dec_symchars. reflexivity. Qed.
+Lemma quote_def k : quote (def_name k) = def_name k.
+Proof.
+  unfold quote. assert (E : mem_str (def_name k) ["Int"; "Real"; "Bool"] = false) by (rewrite def_name_unfold; reflexivity).
+  rewrite E. unfold py_simple_symbol. rewrite (strip_symchars _ (def_symchars k)).
+  pose proof (def_symchars k) as H. rewrite def_name_unfold in *.
+  cbn [str_forall] in H. apply andb_true_iff in H. destruct H as [_ H]. cbn [str_forall]. rewrite H. reflexivity.
+Qed.
+
+(* ------------------------------------------------ _new_symbol returns a name that is not taken *)
+Lemma mem_str_In x l : mem_str x l = true <-> In x l.
+Proof.
+  unfold mem_str. rewrite existsb_exists. split.
+  - intros (y & Hy & E). apply String.eqb_eq in E. now subst.
+  - intros H. exists x. split; [assumption | apply String.eqb_refl].
+Qed.
+Lemma skip_used_spec names : forall f seed,
+  let k := skip_used f names seed in
+  (seed <= k <= seed + f)%nat /\ (forall j, (seed <= j < k)%nat -> In (def_name j) names) /\
+  ((k < seed + f)%nat -> ~ In (def_name k) names).
+Proof.
+  induction f as [|f IH]; intros seed; cbn [skip_used].
+  - split; [lia|]. split; [intros j Hj; lia | intros Hk; lia].
+  - destruct (mem_str (def_name seed) names) eqn:E.
+    + apply mem_str_In in E. destruct (IH (S seed)) as (H1 & H2 & H3). split; [lia|]. split.
+      * intros j Hj. destruct (Nat.eq_dec j seed) as [->|]; [assumption | apply H2; lia].
+      * intros Hk. apply H3. lia.
+    + split; [lia|]. split; [intros j Hj; lia|]. intros _ HI. apply mem_str_In in HI. congruence.
+Qed.
+Lemma new_symbol_fresh names seed :
+  let '(sym, seed') := new_symbol names seed in
+  exists k, sym = def_name k /\ seed' = S k /\ (seed <= k)%nat /\ ~ In sym names.
+Proof.
+  unfold new_symbol. set (f := S (List.length names)). set (k := skip_used f names seed).
+  destruct (skip_used_spec names f seed) as (H1 & H2 & H3). fold k in H1, H2, H3.
+  exists k. repeat split; [lia|].
+  destruct (Nat.lt_ge_cases k (seed + f)) as [Hlt|Hge]; [now apply H3|].
+  exfalso. assert (k = (seed + f)%nat) by lia.
+  assert (Hincl : incl (map def_name (seq seed f)) names).
+  { intros x Hx. apply in_map_iff in Hx. destruct Hx as (j & <- & Hj). apply in_seq in Hj. apply H2. lia. }
+  assert (HN : NoDup (map def_name (seq seed f))).
+  { apply FinFun.Injective_map_NoDup; [intros a b; apply def_name_inj | apply seq_NoDup]. }
+  pose proof (NoDup_incl_length HN Hincl) as HL. rewrite map_length, seq_length in HL. subst f. lia.
+Qed.
+
+(* ------------------------------------------------ texts kept in the memo: weakening *)
+Fixpoint anames (s : sexp) : list string :=
+  match s with
+  | Atom a => match sym_name a with Some n => [n] | None => [] end
+  | SList l => flat_map anames l
+  end.
+(* applications of plain heads to such texts, and atoms: what the printer returns inline *)
+Fixpoint mtext (s : sexp) : Prop :=
+  match s with
+  | Atom _ => True
+  | SList (Atom h :: l) =>
+      head_plain h = true /\ (fix all (l : list sexp) : Prop := match l with [] => True | x :: r => mtext x /\ all r end) l
+  | _ => False
+  end.
+
+Lemma seval_agree_m Sg I rho1 rho2 : forall s, mtext s ->
+  (forall n, In n (anames s) -> assoc n rho1 = assoc n rho2) -> seval Sg I rho1 s = seval Sg I rho2 s.
+Proof.
+  induction s as [a | l IH] using sexp_ind'; intros HM HA.
+  - cbn [seval]. unfold eval_atom.
+    destruct (numeral_val a); [reflexivity|]. destruct (decimal_val a) as [[? ?]|]; [reflexivity|].
+    destruct (bvlit_val a) as [[? ?]|]; [reflexivity|]. destruct (strlit_val a); [reflexivity|].
+    destruct (sym_name a) as [n|] eqn:E; [|reflexivity].
+    rewrite (HA n); [reflexivity|]. cbn [anames]. rewrite E. now left.
+  - destruct l as [|[h|?] l]; cbn [mtext] in HM; try contradiction. destruct HM as [Hp HM].
+    rewrite !(seval_app Sg I _ _ _ Hp). inversion IH as [|? ? _ IHl]; subst.
+    assert (E : map (seval Sg I rho1) l = map (seval Sg I rho2) l).
+    { assert (HAl : forall n, In n (flat_map anames l) -> assoc n rho1 = assoc n rho2).
+      { intros n Hn. apply HA. cbn [anames flat_map]. apply in_or_app. now right. }
+      clear HA Hp IH. induction IHl as [|x r Hx _ IHr]; [reflexivity|]. cbn [map]. destruct HM as [Mx Mr]. f_equal.
+      - apply Hx; [exact Mx|]. intros n Hn. apply HAl. cbn [flat_map]. apply in_or_app. now left.
+      - apply IHr; [exact Mr|]. intros n Hn. apply HAl. cbn [flat_map]. apply in_or_app. now right. }
+    rewrite E. destruct (sym_name h) as [f|] eqn:Ef; [|reflexivity].
+    destruct (SmtStd.all_some (map (seval Sg I rho2) l)); [|reflexivity].
+    unfold apply_sym. rewrite (HA f); [reflexivity|]. cbn [anames flat_map]. rewrite Ef. now left.
+Qed.
+
+(* ------------------------------------------------ inline texts never mention a let-name by accident *)
+Lemma sym_name_cases a n : sym_name a = Some n -> n = a \/ exists r, a = String "|" r.
+Proof.
+  destruct a as [|c r]; [cbn; discriminate|].
+  destruct c as [[] [] [] [] [] [] [] []];
+    try (cbn [sym_name]; destruct (simple_symbol _); [intros [= <-]; now left | discriminate]).
+  intros _. right. eauto.
+Qed.
+Definition plain_first (a : string) : bool :=
+  match a with String c _ => negb (Ascii.eqb c ".") && negb (Ascii.eqb c "|") | EmptyString => true end.
+Definition nodef (s : sexp) : Prop := forall j, ~ In (def_name j) (anames s).
+Lemma nodef_atom a : plain_first a = true -> nodef (Atom a).
+Proof.
+  intros H j HI. cbn [anames] in HI. destruct (sym_name a) as [n|] eqn:E; [|contradiction].
+  destruct HI as [->|[]]. destruct (sym_name_cases _ _ E) as [E'|[r ->]]; [|discriminate H].
+  rewrite <- E', def_name_unfold in H. discriminate H.
+Qed.
+Lemma nodef_list l : Forall nodef l -> nodef (SList l).
+Proof.
+  intros HF j HI. cbn [anames] in HI. apply in_flat_map in HI. destruct HI as (x & Hx & HI).
+  rewrite Forall_forall in HF. exact (HF x Hx j HI).
+Qed.
+Lemma dec_first n : plain_first (dec_string n) = true.
+Proof. unfold dec_string, NilZero.string_of_uint. destruct (N.to_uint (Z.to_N n)); reflexivity. Qed.
+Lemma dec0_first n : plain_first (dec_string n ++ ".0") = true.
+Proof. unfold dec_string, NilZero.string_of_uint. destruct (N.to_uint (Z.to_N n)); reflexivity. Qed.
+Lemma nodef_leaf o :
+  match o with OIntC _ | ORealC _ _ | OBoolC _ | OBVC _ _ | OStrC _ => True | _ => False end -> nodef (leaf_sexp o).
+Proof.
+  destruct o; try contradiction; intros _; cbn [leaf_sexp].
+  - unfold real_const. destruct (num <? 0)%Z, (den =? 1)%Z;
+      repeat first [apply nodef_list; repeat constructor | apply nodef_atom; first [reflexivity | apply dec0_first]].
+  - destruct b; apply nodef_atom; reflexivity.
+  - unfold int_const. destruct (z <? 0)%Z;
+      repeat first [apply nodef_list; repeat constructor | apply nodef_atom; first [reflexivity | apply dec_first]].
+  - apply nodef_atom. reflexivity.
+  - apply nodef_atom. reflexivity.
+Qed.
+
+(* ------------------------------------------------ free symbols of arguments; environments *)
+Lemma fv_arg Sg bound o args a : is_quant o = false -> wfp Sg bound (T o args) -> In a args ->
+  incl (fv a) (fv (T o args)).
+Proof.
+  intros Hq HW Ha v Hv.
+  assert (R : In v (unions var_eqb (map fv args))).
+  { apply (Sets_proofs.unions_In var_eqb var_eqb_eq). exists (fv a). split; [now apply in_map | assumption]. }
+  destruct o; try discriminate Hq; cbn [fv]; try exact R;
+    try (cbn [wfp] in HW; destruct HW as [[[-> _]|Hok] _]; [contradiction Ha | discriminate Hok]).
+  - cbn [wfp] in HW. destruct HW as (-> & _). contradiction Ha.
+  - apply (Sets_proofs.union_In var_eqb var_eqb_eq). now right.
+  - cbn [wfp] in HW. destruct HW as (-> & _). contradiction Ha.
+Qed.
+Lemma bind_env_app : forall ns xs rho, bind_env rho ns xs = (List.rev (combine ns xs) ++ rho)%list.
+Proof.
+  induction ns as [|n ns IH]; intros xs rho; [reflexivity|]. destruct xs as [|x xs]; [reflexivity|].
+  cbn [bind_env combine List.rev]. rewrite IH, <- app_assoc. reflexivity.
+Qed.
+Lemma assoc_app {A} n (l1 l2 : list (string * A)) :
+  assoc n (l1 ++ l2) = match assoc n l1 with Some v => Some v | None => assoc n l2 end.
+Proof. induction l1 as [|[k v] l1 IH]; cbn; [reflexivity|]. destruct (String.eqb n k); auto. Qed.
+Lemma assoc_none_notin {A} n (l : list (string * A)) : assoc n l = None -> ~ In n (map fst l).
+Proof.
+  induction l as [|[k v] l IH]; cbn; [tauto|]. destruct (String.eqb_spec n k); [discriminate|].
+  intros H [E|HI]; [congruence | exact (IH H HI)].
+Qed.
+Lemma vals_ok_length : forall xs vs, vals_ok xs vs -> List.length xs = List.length vs.
+Proof. induction xs as [|x xs IH]; intros [|v vs] H; cbn in *; try contradiction; auto. f_equal. apply IH. tauto. Qed.
+
+(* ------------------------------------------------ the invariant of one printer instance *)
+Lemma lets_env_app Sg I : forall l1 l2 rho,
+  lets_env Sg I (l1 ++ l2) rho = match lets_env Sg I l1 rho with Some r => lets_env Sg I l2 r | None => None end.
+Proof.
+  induction l1 as [|[n e] l1 IH]; intros l2 rho; cbn [List.app lets_env]; [reflexivity|].
+  destruct (sym_name n) as [m|]; [|reflexivity]. destruct (seval Sg I rho e) as [x|]; [|reflexivity].
+  destruct (String.eqb m n); [apply IH | reflexivity].
+Qed.
+Lemma tsize_arg o args a : In a args -> (tsize a < tsize (T o args))%nat.
+Proof.
+  intros H. cbn [tsize]. induction args as [|x r IH]; [contradiction|]. cbn [fold_right].
+  destruct H as [->|H]; [lia | specialize (IH H); lia].
+Qed.
+Lemma memo_has_cons t' t s m : memo_has t' m = true -> memo_has t' ((t, s) :: m) = true.
+Proof. unfold memo_has. cbn [memo_get]. destruct (term_eqb t' t); auto. Qed.
+Lemma memo_has_get t m : memo_has t m = true -> exists s, memo_get t m = Some s.
+Proof. unfold memo_has. destruct (memo_get t m); [eauto | discriminate]. Qed.
+
+Lemma combine_fst_eq {A B} : forall (a : list A) (b : list B), List.length a = List.length b -> map fst (combine a b) = a.
+Proof. induction a as [|x a IH]; intros [|y b] H; cbn in *; try discriminate; auto. f_equal. apply IH. lia. Qed.
+
+Section Dag.
+  Variable Sg : sig.
+  Variable I : interp.
+
+  Definition relevant (fvs : list var) (n : string) : Prop :=
+    assoc n std_table <> None \/ assoc n std_consts <> None \/ In n (map fst fvs).
+
+  (* the DAG printer's text for t, read in an environment rho1 that agrees with a clean one (rho2,
+     related to J by env_rel) on the names t can look up, has the value of t *)
+  Definition dag_ok (t : term) : Prop :=
+    forall bound rho2 J rho1,
+      wfp Sg bound t -> env_rel I bound rho2 J -> bound_good bound -> wf_interp J ->
+      (forall n, relevant (fv t) n -> assoc n rho1 = assoc n rho2) ->
+      seval Sg I rho1 (print_dag t) = Some (eval J t).
+
+  Section Inv.
+    Variables (bound : list var) (rho2 : env) (J : interp) (rho1 : env) (fvs : list var).
+    Let names := map (fun v : var => quote (fst v)) fvs.
+    Hypothesis HR : env_rel I bound rho2 J.
+    Hypothesis HB : bound_good bound.
+    Hypothesis HJ : wf_interp J.
+    Hypothesis HA : forall n, relevant fvs n -> assoc n rho1 = assoc n rho2.
+    Variable N : nat.
+    Hypothesis HIH : forall b, (tsize b < N)%nat -> dag_ok b.
+
+    Definition good (t : term) : Prop := wfp Sg bound t /\ incl (fv t) fvs.
+    Definition atoms_ok (seed : nat) (s : sexp) : Prop :=
+      forall j, In (def_name j) (anames s) -> In (def_name j) names \/ (j < seed)%nat.
+    Definition Inv (st : dst) : Prop :=
+      exists rho_st,
+        lets_env Sg I (List.rev (d_lets st)) rho1 = Some rho_st /\
+        (forall n, relevant fvs n -> assoc n rho_st = assoc n rho1) /\
+        (forall t s, memo_get t (d_memo st) = Some s ->
+           good t /\ mtext s /\ seval Sg I rho_st s = Some (eval J t) /\ atoms_ok (d_seed st) s).
+
+    Lemma def_not_relevant k : ~ In (def_name k) names -> ~ relevant fvs (def_name k).
+    Proof.
+      intros Hn [H|[H|H]].
+      - now rewrite (proj1 (def_not_theory k)) in H.
+      - now rewrite (proj2 (def_not_theory k)) in H.
+      - apply Hn. apply in_map_iff in H. destruct H as (v & E & Hv). unfold names.
+        apply in_map_iff. exists v. split; [|assumption]. now rewrite E, quote_def.
+    Qed.
+
+    Lemma inv_add st t text :
+      Inv st -> good t ->
+      (forall rho_st, lets_env Sg I (List.rev (d_lets st)) rho1 = Some rho_st ->
+                      (forall n, relevant fvs n -> assoc n rho_st = assoc n rho1) ->
+                      seval Sg I rho_st text = Some (eval J t)) ->
+      Inv (add_let names st t text) /\ memo_has t (d_memo (add_let names st t text)) = true /\
+      (forall t', memo_has t' (d_memo st) = true -> memo_has t' (d_memo (add_let names st t text)) = true).
+    Proof.
+      intros (rho_st & HL & HRl & HM) HG HT. unfold add_let.
+      pose proof (new_symbol_fresh names (d_seed st)) as HF.
+      destruct (new_symbol names (d_seed st)) as [sym seed']. destruct HF as (k & -> & -> & Hk & Hfresh).
+      cbn [d_memo d_seed d_lets]. split; [|split].
+      - exists ((def_name k, eval J t) :: rho_st). cbn [d_memo d_seed d_lets]. split; [|split].
+        + cbn [List.rev]. rewrite lets_env_app, HL. cbn [lets_env].
+          now rewrite def_sym_name, (HT rho_st HL HRl), String.eqb_refl.
+        + intros n Hn. cbn [assoc]. destruct (String.eqb_spec n (def_name k)) as [->|]; [|now apply HRl].
+          exfalso. exact (def_not_relevant k Hfresh Hn).
+        + intros t' s Hget. cbn [memo_get] in Hget. destruct (term_eqb t' t) eqn:E.
+          * injection Hget as <-. apply term_eqb_eq in E. subst t'. split; [assumption|]. split; [exact Logic.I|]. split.
+            -- cbn [seval]. rewrite (eval_atom_symbol Sg I _ _ _ (def_symbol k)). cbn [assoc]. now rewrite String.eqb_refl.
+            -- intros j Hj. cbn [anames] in Hj. rewrite def_sym_name in Hj. destruct Hj as [Hj|[]].
+               apply def_name_inj in Hj. right. lia.
+          * destruct (HM t' s Hget) as (G & M & V & A). split; [assumption|]. split; [assumption|]. split.
+            -- rewrite <- V. apply seval_agree_m; [assumption|]. intros n Hn. cbn [assoc].
+               destruct (String.eqb_spec n (def_name k)) as [->|]; [|reflexivity].
+               exfalso. destruct (A k Hn) as [Hin|Hlt]; [exact (Hfresh Hin) | lia].
+            -- intros j Hj. destruct (A j Hj); [now left | right; lia].
+      - unfold memo_has. cbn [memo_get]. now rewrite (proj2 (term_eqb_eq t t) eq_refl).
+      - intros t'. apply memo_has_cons.
+    Qed.
+
+    Lemma inv_inline st t text :
+      Inv st -> good t -> mtext text -> atoms_ok (d_seed st) text ->
+      (forall rho_st, lets_env Sg I (List.rev (d_lets st)) rho1 = Some rho_st ->
+                      (forall n, relevant fvs n -> assoc n rho_st = assoc n rho1) ->
+                      seval Sg I rho_st text = Some (eval J t)) ->
+      Inv {| d_memo := (t, text) :: d_memo st; d_seed := d_seed st; d_lets := d_lets st |}.
+    Proof.
+      intros (rho_st & HL & HRl & HM) HG HMt HAt HT. exists rho_st. cbn [d_memo d_seed d_lets]. split; [assumption|]. split; [assumption|].
+      intros t' s Hget. cbn [memo_get] in Hget. destruct (term_eqb t' t) eqn:E; [|now apply HM].
+      injection Hget as <-. apply term_eqb_eq in E. subst t'.
+      split; [assumption|]. split; [assumption|]. split; [exact (HT rho_st HL HRl) | assumption].
+    Qed.
+
+    (* scope and name facts at the environment of the lets written so far *)
+    Lemma scope_st rho_st : (forall n, relevant fvs n -> assoc n rho_st = assoc n rho1) -> scope I rho_st J.
+    Proof.
+      intros HRl. pose proof (env_rel_scope I bound rho2 J HR HB) as [S1 S2 S3 S4]. split; auto.
+      - intros n k Hk. rewrite HRl, HA; [eauto | left; congruence | left; congruence].
+      - intros n c Hc. rewrite HRl, HA; [eauto | right; left; congruence | right; left; congruence].
+    Qed.
+    Lemma name_ok_st rho_st t : (forall n, relevant fvs n -> assoc n rho_st = assoc n rho1) -> good t ->
+      name_ok I bound rho_st J t.
+    Proof.
+      intros HRl [HW Hincl]. destruct t as [o args]. destruct o; cbn [name_ok]; auto.
+      - assert (Rn : relevant fvs n).
+        { right; right. apply in_map_iff. exists (n, t). split; [reflexivity|]. apply Hincl. cbn [fv]. now left. }
+        destruct HR as (H & _). specialize (H n). unfold clause. unfold var in *.
+        destruct (assoc n bound); rewrite HRl, HA; auto.
+      - assert (Rn : relevant fvs n).
+        { right; right. apply in_map_iff. exists (n, t). split; [reflexivity|]. apply Hincl. cbn [fv].
+          apply (Sets_proofs.union_In var_eqb var_eqb_eq). left. now left. }
+        cbn [wfp] in HW. destruct HW as (_ & Hnb & _). destruct HR as (H & _). specialize (H n). unfold var in *.
+        rewrite Hnb in H. rewrite HRl, HA; tauto.
+    Qed.
+
+    (* ---- one node ---- *)
+    Definition mono (st st' : dst) : Prop :=
+      forall t', memo_has t' (d_memo st) = true -> memo_has t' (d_memo st') = true.
+    Definition texts_of (st : dst) (args : list term) : list sexp :=
+      map (fun c => match memo_get c (d_memo st) with Some r => r | None => Atom "?" end) args.
+
+    Lemma leaf_mtext o : match o with OIntC _ | ORealC _ _ | OBoolC _ | OBVC _ _ | OStrC _ => True | _ => False end ->
+      mtext (leaf_sexp o).
+    Proof.
+      destruct o; try contradiction; intros _; cbn [leaf_sexp]; try exact Logic.I.
+      - unfold real_const. destruct (num <? 0)%Z, (den =? 1)%Z; cbn; auto 10.
+      - unfold int_const. destruct (z <? 0)%Z; cbn; auto.
+    Qed.
+
+    Lemma inline_text_ok st o args :
+      dag_inline o = true -> good (T o args) ->
+      Forall (fun s => mtext s /\ atoms_ok (d_seed st) s) (texts_of st args) ->
+      mtext (term_sexp (T o args) (texts_of st args)) /\ atoms_ok (d_seed st) (term_sexp (T o args) (texts_of st args)).
+    Proof.
+      intros Hi [HW Hincl] HF.
+      destruct o; try discriminate Hi; cbn [term_sexp node_sexp op_head].
+      - (* symbol *) split; [exact Logic.I|]. cbn [leaf_sexp]. intros j Hj.
+        cbn [wfp] in HW. destruct HW as (_ & Hn & _). apply good_name_inv in Hn. destruct Hn as (Hs & _).
+        cbn [anames] in Hj. rewrite (symbol_atom_sym _ _ Hs) in Hj. destruct Hj as [->|[]]. left.
+        unfold names. apply in_map_iff. exists (def_name j, t). split; [cbn [fst]; apply quote_def|].
+        apply Hincl. cbn [fv]. now left.
+      - split; [now apply leaf_mtext|]. intros j Hj. exfalso. exact (nodef_leaf (ORealC num den) Logic.I j Hj).
+      - split; [now apply leaf_mtext|]. intros j Hj. exfalso. exact (nodef_leaf (OBoolC b) Logic.I j Hj).
+      - split; [now apply leaf_mtext|]. intros j Hj. exfalso. exact (nodef_leaf (OIntC z) Logic.I j Hj).
+      - split; [now apply leaf_mtext|]. intros j Hj. exfalso. exact (nodef_leaf (OStrC s) Logic.I j Hj).
+      - split; [now apply leaf_mtext|]. intros j Hj. exfalso. exact (nodef_leaf (OBVC v w) Logic.I j Hj).
+      - (* inline string operators *)
+        assert (Hp : head_plain (strop_name k) = true /\ plain_first (strop_name k) = true)
+          by (destruct k; try discriminate Hi; split; reflexivity).
+        destruct Hp as [Hp Hf]. split.
+        + cbn [mtext]. split; [exact Hp|]. induction HF as [|x r [Hx _] _ IH]; cbn; auto.
+        + intros j Hj. cbn [anames flat_map] in Hj. apply in_app_or in Hj. destruct Hj as [Hj|Hj].
+          * exfalso. exact (nodef_atom _ Hf j Hj).
+          * apply in_flat_map in Hj. destruct Hj as (x & Hx & Hj). rewrite Forall_forall in HF. exact (proj2 (HF x Hx) j Hj).
+    Qed.
+
+    Lemma dag_compute_unfold st o args : (forall it, o <> OArrayValue it) ->
+      dag_compute names st (T o args) =
+      if memo_has (T o args) (d_memo st) then st else
+      if dag_inline o
+      then {| d_memo := (T o args, term_sexp (T o args) (texts_of st args)) :: d_memo st; d_seed := d_seed st; d_lets := d_lets st |}
+      else add_let names st (T o args) (term_sexp (T o args) (texts_of st args)).
+    Proof. intros Hna. destruct o; try reflexivity. exfalso. exact (Hna it eq_refl). Qed.
+
+    Lemma compute_ok st o args :
+      is_quant o = false -> Inv st -> good (T o args) ->
+      Forall (fun a => memo_has a (d_memo st) = true) args ->
+      Inv (dag_compute names st (T o args)) /\ memo_has (T o args) (d_memo (dag_compute names st (T o args))) = true /\
+      mono st (dag_compute names st (T o args)).
+    Proof.
+      intros Hq HI HG Hargs.
+      destruct (memo_has (T o args) (d_memo st)) eqn:Em.
+      { assert (E : dag_compute names st (T o args) = st) by (unfold dag_compute; now rewrite Em).
+        rewrite E. split; [assumption|]. split; [assumption|]. intros t' H; exact H. }
+      pose proof HI as (rho0 & HL0 & HRl0 & HM).
+      (* the texts of the arguments have the arguments' values *)
+      assert (VAL : forall rho_st, lets_env Sg I (List.rev (d_lets st)) rho1 = Some rho_st ->
+                 (forall n, relevant fvs n -> assoc n rho_st = assoc n rho1) ->
+                 seval Sg I rho_st (node_text (T o args) (texts_of st args) (pairs_of (List.tl (texts_of st args))))
+                 = Some (eval J (T o args))).
+      { intros rho_st HL HRl. rewrite HL0 in HL. injection HL as <-.
+        apply (node_value Sg I o args _ _ bound); auto.
+        - exact (proj1 HG).
+        - now apply scope_st.
+        - now apply name_ok_st.
+        - unfold texts_of. clear - Hargs HM. induction Hargs as [|a r Ha _ IH]; cbn [map]; constructor; [|exact IH].
+          destruct (memo_has_get _ _ Ha) as [s Hs]. rewrite Hs. exact (proj1 (proj2 (proj2 (HM a s Hs)))). }
+      assert (TXT : Forall (fun s => mtext s /\ atoms_ok (d_seed st) s) (texts_of st args)).
+      { unfold texts_of. clear - Hargs HM. induction Hargs as [|a r Ha _ IH]; cbn [map]; constructor; [|exact IH].
+        destruct (memo_has_get _ _ Ha) as [s Hs]. rewrite Hs. destruct (HM a s Hs) as (_ & M & _ & A). auto. }
+      destruct (match o with OArrayValue _ => true | _ => false end) eqn:Ea.
+      - (* array value *)
+        destruct o; try discriminate Ea. destruct args as [|d assigns].
+        { exfalso. exact (proj1 HG). }
+        unfold dag_compute. rewrite Em. fold (texts_of st (d :: assigns)).
+        inversion Hargs; subst. cbn [texts_of map] in *.
+        apply inv_add; auto.
+      - rewrite dag_compute_unfold, Em by (intros it ->; discriminate Ea).
+        assert (NT : node_text (T o args) (texts_of st args) (pairs_of (List.tl (texts_of st args)))
+                     = term_sexp (T o args) (texts_of st args)).
+        { destruct o; try reflexivity. discriminate Ea. }
+        rewrite NT in VAL. destruct (dag_inline o) eqn:Ei.
+        + destruct (inline_text_ok st o args Ei HG TXT) as [M A]. split; [|split].
+          * now apply inv_inline.
+          * unfold memo_has. cbn [d_memo memo_get]. now rewrite (proj2 (term_eqb_eq _ _) eq_refl).
+          * intros t'. cbn [d_memo]. apply memo_has_cons.
+        + now apply inv_add.
+    Qed.
+
+    (* ---- the walk ---- *)
+    Fixpoint visit_args (m0 : list (term * sexp)) (st : dst) (l : list term) : dst :=
+      match l with
+      | [] => st
+      | c :: r => let s := visit_args m0 st r in if memo_has c m0 then s else dag_visit names c s
+      end.
+    Lemma dag_visit_unfold o args st : is_quant o = false ->
+      dag_visit names (T o args) st =
+      if memo_has (T o args) (d_memo st) then st
+      else dag_compute names (visit_args (d_memo st) st args) (T o args).
+    Proof.
+      intros Hq.
+      assert (G : forall m0 st0 l,
+                 (fix go (l : list term) : dst :=
+                    match l with
+                    | [] => st0
+                    | c :: r => let s := go r in if memo_has c m0 then s else dag_visit names c s
+                    end) l = visit_args m0 st0 l).
+      { intros m0 st0 l. induction l as [|c r IH]; [reflexivity|]. cbn [visit_args]. now rewrite <- IH. }
+      destruct o; try discriminate Hq; cbn [dag_visit]; rewrite G; reflexivity.
+    Qed.
+
+    Definition post (st st' : dst) (t : term) : Prop :=
+      Inv st' /\ memo_has t (d_memo st') = true /\ mono st st'.
+
+    Lemma quant_value vs b rho_st :
+      (tsize b < N)%nat -> vs <> [] -> Forall (good_binder Sg) vs -> wfp Sg (List.rev vs ++ bound) b ->
+      (forall n, relevant fvs n -> assoc n rho_st = assoc n rho1) ->
+      (forall v, In v (fv b) -> ~ In v vs -> In v fvs) ->
+      forall xs, vals_ok xs vs ->
+        seval Sg I (bind_env rho_st (map fst vs) xs) (print_dag b) = Some (eval (bind J vs xs) b).
+    Proof.
+      intros Hsz Hne HG HWb HRl Hfv xs Hok.
+      apply (HIH b Hsz (List.rev vs ++ bound)%list (bind_env rho2 (map fst vs) xs)); auto.
+      - now apply env_rel_bind.
+      - apply bound_good_bind; auto. rewrite Forall_forall in *. intros v Hv. destruct (HG v Hv) as [Hn _].
+        apply good_name_inv in Hn. tauto.
+      - now apply wf_bind.
+      - intros n Hn. rewrite !bind_env_app, !assoc_app.
+        destruct (assoc n (List.rev (combine (map fst vs) xs))) as [x|] eqn:E; [reflexivity|].
+        rewrite HRl, HA; auto.
+        + destruct Hn as [H|[H|H]]; [now left | now right; left | right; right].
+          apply in_map_iff in H. destruct H as ([m ty] & <- & Hv). cbn [fst].
+          apply in_map_iff. exists (m, ty). split; [reflexivity|]. apply Hfv; [assumption|].
+          intros Hin. apply assoc_none_notin in E. apply E.
+          rewrite map_rev. apply -> in_rev.
+          assert (L : List.length (map fst vs) = List.length xs) by (rewrite map_length; symmetry; now apply vals_ok_length).
+          rewrite (combine_fst_eq _ _ L). apply in_map_iff. exists (m, ty). now split.
+        + destruct Hn as [H|[H|H]]; [now left | now right; left | right; right].
+          apply in_map_iff in H. destruct H as ([m ty] & <- & Hv). cbn [fst].
+          apply in_map_iff. exists (m, ty). split; [reflexivity|]. apply Hfv; [assumption|].
+          intros Hin. apply assoc_none_notin in E. apply E.
+          rewrite map_rev. apply -> in_rev.
+          assert (L : List.length (map fst vs) = List.length xs) by (rewrite map_length; symmetry; now apply vals_ok_length).
+          rewrite (combine_fst_eq _ _ L). apply in_map_iff. exists (m, ty). now split.
+    Qed.
+
+    Lemma quant_node (q : string) (isf : bool) vs b st :
+      (q = if isf then "forall" else "exists") ->
+      let t := T (if isf then OForall vs else OExists vs) [b] in
+      (tsize t <= N)%nat -> Inv st -> good t ->
+      post st (add_let names st t (quant_sexp q vs (print_dag b))) t.
+    Proof.
+      intros Hqn t Hsz HI HG. unfold post, mono. apply inv_add; auto.
+      intros rho_st HL HRl. destruct HG as [HW Hincl].
+      assert (HW' : vs <> [] /\ Forall (good_binder Sg) vs /\ wfp Sg (List.rev vs ++ bound) b)
+        by (subst t; destruct isf; exact HW).
+      destruct HW' as (Hne & HGb & HWb).
+      assert (Hb : (tsize b < N)%nat) by (subst t; destruct isf; cbn [tsize fold_right] in Hsz; lia).
+      assert (Hfv : forall v, In v (fv b) -> ~ In v vs -> In v fvs).
+      { intros v Hv Hnv. apply Hincl. subst t. destruct isf; cbn [fv map];
+          apply (Sets_proofs.diff_In var_eqb var_eqb_eq); (split; [|assumption]);
+          apply (Sets_proofs.unions_In var_eqb var_eqb_eq); exists (fv b); (split; [now left | assumption]). }
+      pose proof (quant_value vs b rho_st Hb Hne HGb HWb HRl Hfv) as QV.
+      subst t q. destruct isf.
+      - cbn [quant_sexp seval eval]. cbn [String.eqb Ascii.eqb Bool.eqb orb].
+        rewrite (binders_read Sg _ HGb). destruct vs as [|v vs]; [contradiction Hne; reflexivity|].
+        do 2 f_equal. apply emi_iff'. split; intros H xs Hok.
+        + specialize (H xs Hok). rewrite (QV xs Hok) in H. now injection H.
+        + rewrite (QV xs Hok). now rewrite (H xs Hok).
+      - cbn [quant_sexp seval eval]. cbn [String.eqb Ascii.eqb Bool.eqb orb].
+        rewrite (binders_read Sg _ HGb). destruct vs as [|v vs]; [contradiction Hne; reflexivity|].
+        do 2 f_equal. apply emi_iff'. split; intros [xs [Hok H]]; exists xs; (split; [exact Hok|]).
+        + rewrite (QV xs Hok) in H. now injection H.
+        + rewrite (QV xs Hok). now rewrite H.
+    Qed.
+
+    Lemma visit_ok : forall t, (tsize t <= N)%nat -> forall st, Inv st -> good t -> post st (dag_visit names t st) t.
+    Proof.
+      induction t as [o args IH] using term_ind'. intros Hsz st HI HG.
+      destruct (is_quant o) eqn:Hq.
+      - destruct o; try discriminate Hq.
+        + destruct args as [|b [|c r]]; try (exfalso; exact (proj2 (proj2 (proj1 HG)))).
+          exact (quant_node "forall" true vs b st eq_refl Hsz HI HG).
+        + destruct args as [|b [|c r]]; try (exfalso; exact (proj2 (proj2 (proj1 HG)))).
+          exact (quant_node "exists" false vs b st eq_refl Hsz HI HG).
+      - rewrite (dag_visit_unfold o args st Hq).
+        destruct (memo_has (T o args) (d_memo st)) eqn:Em.
+        { split; [assumption|]. split; [assumption|]. intros t' H; exact H. }
+        assert (W : Inv (visit_args (d_memo st) st args) /\ mono st (visit_args (d_memo st) st args) /\
+                    Forall (fun a => memo_has a (d_memo (visit_args (d_memo st) st args)) = true) args).
+        { assert (GA : forall a, In a args -> good a /\ (tsize a <= N)%nat).
+          { intros a Ha. split.
+            - split.
+              + pose proof (wfp_args Sg o args bound Hq (proj1 HG)) as Hrec. clear - Ha Hrec.
+                induction args as [|x r IHr]; [contradiction|]. destruct Hrec as [Hx Hr]. destruct Ha as [->|Ha]; auto.
+              + intros v Hv. apply (proj2 HG). exact (fv_arg Sg bound o args a Hq (proj1 HG) Ha v Hv).
+            - pose proof (tsize_arg o args a Ha). lia. }
+          clear Em Hsz HG. set (m0 := d_memo st). assert (M0 : mono st st) by (intros t' H; exact H).
+          assert (M00 : forall c, memo_has c m0 = true -> memo_has c (d_memo st) = true) by auto.
+          clearbody m0. induction IH as [|c r Hc _ IHr]; cbn [visit_args].
+          - split; [assumption|]. split; [assumption | constructor].
+          - destruct IHr as (I1 & M1 & F1); [intros a Ha; apply GA; now right|].
+            destruct (memo_has c m0) eqn:Ec.
+            + split; [assumption|]. split; [assumption|]. constructor; [apply M1; now apply M00 | assumption].
+            + destruct (GA c (or_introl eq_refl)) as [Gc Sc].
+              destruct (Hc Sc _ I1 Gc) as (I2 & Mc & M2). split; [assumption|]. split.
+              * intros t' H. apply M2, M1, H.
+              * constructor; [assumption|]. rewrite Forall_forall in *. intros a Ha. apply M2, F1, Ha. }
+        destruct W as (I1 & M1 & F1).
+        destruct (compute_ok _ o args Hq I1 HG F1) as (I2 & Mt & M2).
+        split; [assumption|]. split; [assumption|]. intros t' H. apply M2, M1, H.
+    Qed.
+  End Inv.
+
+  Theorem dag_sound : forall n t, (tsize t <= n)%nat -> dag_ok t.
+  Proof.
+    induction n as [|n IHn]; intros t Hsz; [destruct t; cbn in Hsz; lia|].
+    intros bound rho2 J rho1 HW HR HB HJ HA.
+    assert (HIH : forall b, (tsize b < S n)%nat -> dag_ok b) by (intros b Hb; apply IHn; lia).
+    assert (I0 : Inv bound J rho1 (fv t) dst0).
+    { exists rho1. split; [reflexivity|]. split; [auto|]. intros t' s H. discriminate H. }
+    assert (G0 : good bound (fv t) t) by (split; [assumption | intros v Hv; exact Hv]).
+    destruct (visit_ok bound rho2 J rho1 (fv t) HR HB HJ HA (S n) HIH t Hsz dst0 I0 G0) as ((rho_st & HL & _ & HM) & Hm & _).
+    unfold print_dag, names_of. cbv zeta.
+    destruct (memo_has_get _ _ Hm) as [s Hs]. unfold var in *. rewrite Hs.
+    rewrite (wrap_lets_sound Sg I s _ rho1 rho_st HL). exact (proj1 (proj2 (proj2 (HM t s Hs)))).
+  Qed.
+End Dag.
+
+(* FULL STATEMENT: tc t = Some ty -> printable_names t -> std_eval Sigma_t I (print_dag t) = Some (eval I t).
+   Proved for the same fragment [wfp] as the tree printer (everything but Pow, with the side
+   conditions listed there): the invariant is that every let-name is fresh for the names the
+   printed term can look up (its free symbols - [names] - theory symbols), every memo entry
+   evaluates, in the environment of the lets written so far, to the value of its term, and a
+   quantifier body is printed by a fresh printer whose lets may shadow outer ones harmlessly. *)
+Theorem print_dag_sound_partial : forall Sg I t,
+  wfp Sg [] t -> wf_interp I -> std_eval Sg I (print_dag t) = Some (eval I t).
+Proof.
+  intros Sg I t HW HI. unfold std_eval.
+  apply (dag_sound Sg I (tsize t) t (Nat.le_refl _) [] [] I []); auto.
+  - split; [|auto]. intros n. cbn. auto.
+  - intros n ty H. discriminate H.
+Qed.
 
 (* ========================================================================= scripts *)
 (* Full statement, for the record:  script_wellformed : std_script_ok (script_of dag logic t) = true
